@@ -66,7 +66,8 @@ inductive AtomicRole where
   | nextLoad        -- `(*p).next.load` under `&mut self` (drop)
   | lenLoad         -- `length.load` in `try_inc_length`
   | lenCas          -- the compare-exchange that reserves `[len, len+n)` of a block
-  | counter         -- usage / limit / block capacity / key counter: values only, nothing is published through them
+  | keyCounter      -- the interner's key counter (`self.key` in threaded_rodeo.rs)
+  | counter         -- usage / limit / block capacity: values only, nothing is published through them
   | audit           -- inside a `verif_*` hook
   | unknown         -- anything else: not covered by the model
   deriving DecidableEq, Repr, Inhabited
@@ -215,6 +216,26 @@ structure EqImpl where
   rhs : Wrapper
   shape : EqShape
   deriving DecidableEq, Repr, Inhabited
+
+inductive HashSiteKind where
+  | binding     -- `let hash = …;`
+  | call        -- a call of `hash_one` (or of hand-rolled hashing)
+  | use         -- the hash argument of `from_hash`
+  deriving DecidableEq, Repr, Inhabited
+
+inductive HashShape where
+  | hashOneWhole   -- `<hasher>.hash_one(<one string variable>)` resp. the binding `hash` itself
+  | other
+  deriving DecidableEq, Repr, Inhabited
+
+/-- One place where a table hash is computed or used. -/
+structure HashSite where
+  file : String
+  func : String
+  kind : HashSiteKind
+  shape : HashShape
+  text : String
+  deriving Repr, Inhabited
 
 /-- Shape of `LockfreeArena::allocate_memory`. -/
 inductive AllocShape where
